@@ -2185,7 +2185,7 @@ impl CharacterData for XmlText {
         if self.length() < offset {
             Err(error::DomException::IndexSizeErr)?
         } else {
-            Ok(self.data.borrow().substring(offset..(offset + count)))
+            Ok(self.data.borrow().substring(offset..offset.saturating_add(count)))
         }
     }
 }
@@ -2201,7 +2201,7 @@ impl CharacterDataMut for XmlText {
     }
 
     fn delete_data(&self, offset: usize, count: usize) -> error::Result<()> {
-        if self.length() < (offset + count) {
+        if self.length() < offset {
             Err(error::DomException::IndexSizeErr)?
         } else {
             self.data.borrow_mut().delete(offset, count);
@@ -2340,7 +2340,7 @@ impl CharacterData for XmlComment {
         if self.length() < offset {
             Err(error::DomException::IndexSizeErr)?
         } else {
-            Ok(self.data.borrow().substring(offset..(offset + count)))
+            Ok(self.data.borrow().substring(offset..offset.saturating_add(count)))
         }
     }
 }
@@ -2356,7 +2356,7 @@ impl CharacterDataMut for XmlComment {
     }
 
     fn delete_data(&self, offset: usize, count: usize) -> error::Result<()> {
-        if self.length() < (offset + count) {
+        if self.length() < offset {
             Err(error::DomException::IndexSizeErr)?
         } else {
             self.data.borrow_mut().delete(offset, count);
@@ -2524,7 +2524,7 @@ impl CharacterData for XmlCDataSection {
         if self.length() < offset {
             Err(error::DomException::IndexSizeErr)?
         } else {
-            Ok(self.data.borrow().substring(offset..(offset + count)))
+            Ok(self.data.borrow().substring(offset..offset.saturating_add(count)))
         }
     }
 }
@@ -2540,7 +2540,7 @@ impl CharacterDataMut for XmlCDataSection {
     }
 
     fn delete_data(&self, offset: usize, count: usize) -> error::Result<()> {
-        if self.length() < (offset + count) {
+        if self.length() < offset {
             Err(error::DomException::IndexSizeErr)?
         } else {
             self.data.borrow_mut().delete(offset, count);
